@@ -26,7 +26,7 @@ Print Assumptions C11_or_refuted.
 Definition ex_cfg16 : cfg :=
   {| c_mst := s_cpu; c_tagkeys := [s_dc; s_host]; c_sk := [s_host]; c_typ := Hash; c_dur := 3600000000000;
      c_groups := [{| g_id := 1%N; g_start := 1699999200000000000; g_end := 1700002800000000000; g_deleted := false;
-                     g_trunc := None; g_shards := mk_shards 16; g_alive := seq 0 16; g_mstidx := None |}] |}.
+                     g_trunc := None; g_shards := mk_shards 16; g_alive := seq 0 16 |}]; c_mstidx := None |}.
 Definition ex_cond_ab : expr := EOr (EEq 0%N s_host [97%N]) (EEq 1%N s_host [98%N]).
 
 Theorem C11_key_accumulation_refuted :
@@ -36,7 +36,7 @@ Proof.
   { intros v Hv.
     exists xxh64, ex_cfg16, (Some ex_cond_ab), (ex_point 98 false), (hd ex_group (c_groups ex_cfg16)),
            {| s_id := 13%N; s_min := []; s_max := [] |}, 0, max_nano.
-    split. { unfold wf_cfg. simpl. constructor; [|constructor]. simpl. apply incl_refl. }
+    split. { unfold wf_cfg. simpl. constructor; [|constructor]. unfold wf_group. simpl. apply incl_refl. }
     split. { unfold wf_point. simpl. constructor; [intros []|constructor]. }
     split; [vm_compute; reflexivity|]. split; [vm_compute; split; discriminate|]. split; [vm_compute; reflexivity|].
     destruct v as [vo va vr]. simpl in Hv. subst vr. destruct vo, va; vm_compute; intros [H|[H|[]]]; discriminate. }
@@ -50,7 +50,7 @@ Print Assumptions C11_key_accumulation_refuted.
    buffer repairs in place. The tree is NOT in the image of the InfluxQL parser (a parenthesised OR arrives as a
    ParenExpr, which getConditionTags treats as unconstrained), so no query reaches it today. *)
 Definition ex_cfg_dh : cfg :=
-  {| c_mst := s_cpu; c_tagkeys := [s_dc; s_host]; c_sk := [s_dc; s_host]; c_typ := Hash; c_dur := 3600000000000; c_groups := [ex_group] |}.
+  {| c_mst := s_cpu; c_tagkeys := [s_dc; s_host]; c_sk := [s_dc; s_host]; c_typ := Hash; c_dur := 3600000000000; c_groups := [ex_group]; c_mstidx := None |}.
 Definition ex_cond_and : expr := EAnd (EEq 0%N s_host [97%N]) (EOr (EEq 1%N s_dc [51%N]) (EEq 2%N s_dc [52%N])).
 Definition ex_point_dh : point :=
   {| p_tags := [(s_dc, [52%N]); (s_host, [97%N])]; p_time := 1699999200000000001; p_leaf := fun _ => false |}.
@@ -61,7 +61,7 @@ Proof.
   assert (W : forall v, v_and v = false -> violates v).
   { intros v Hv.
     exists xxh64, ex_cfg_dh, (Some ex_cond_and), ex_point_dh, ex_group, {| s_id := 3%N; s_min := []; s_max := [] |}, 0, max_nano.
-    split. { unfold wf_cfg. simpl. constructor; [|constructor]. simpl. apply incl_refl. }
+    split. { unfold wf_cfg. simpl. constructor; [|constructor]. unfold wf_group. simpl. apply incl_refl. }
     split. { unfold wf_point. simpl. constructor; [intros [H|[]]; discriminate|constructor; [intros []|constructor]]. }
     split; [vm_compute; reflexivity|]. split; [vm_compute; split; discriminate|]. split; [vm_compute; reflexivity|].
     destruct v as [vo va vr]. simpl in Hv. subst va. destruct vo, vr; vm_compute; intros [H|[]]; discriminate. }
@@ -74,3 +74,78 @@ Example and_alternatives_through_parser_reads_all :
   target xxh64 current ex_cfg_dh 0 max_nano (Some (EAnd (EEq 0%N s_host [97%N]) (EParen (EOr (EEq 1%N s_dc [51%N]) (EEq 2%N s_dc [52%N])))))
   = map (fun i => (1%N, N.of_nat (S i))) (seq 0 8).
 Proof. vm_compute. reflexivity. Qed.
+
+(* ------------------------------------------------------------------ stale shard key inside a write batch *)
+(* cpu is sharded by host, mem by region, 4 shards, one group. One batch: a cpu row; a mem row that the schema check
+   drops (field type conflict) after mem was resolved; a mem row {host=h0, region=r3}. Today's bookkeeping says "same
+   measurement as the previous row, same group" and keeps cpu's key: the mem row is hashed by host=h0 into shard 1,
+   while a query region='r3' on mem consults shard 3 only - even with every read-side repair. Looked up per row, the
+   mem row goes to shard 3. *)
+Definition s_region : str := [114; 101; 103; 105; 111; 110]%N.
+Definition s_mem : str := [109; 101; 109; 95; 48; 48; 48; 48]%N.
+Definition ex_group4 : group :=
+  {| g_id := 1%N; g_start := 1699999200000000000; g_end := 1700002800000000000; g_deleted := false; g_trunc := None;
+     g_shards := mk_shards 4; g_alive := seq 0 4 |}.
+Definition ex_m (name : str) (key : str) : mcfg :=
+  {| m_cfg := {| c_mst := name; c_tagkeys := [s_host; s_region]; c_sk := []; c_typ := Hash; c_dur := 3600000000000;
+                 c_groups := [ex_group4]; c_mstidx := None |};
+     m_vers := [(0%N, [key])] |}.
+Definition ex_row (m : mcfg) (k : rowkind) (t : Z) : brow :=
+  {| r_m := m; r_kind := k;
+     r_p := {| p_tags := [(s_host, [104; 48]%N); (s_region, [114; 51]%N)]; p_time := t; p_leaf := fun _ => false |} |}.
+Definition ex_batch : list brow :=
+  [ ex_row (ex_m s_cpu s_host) RRoute 1699999260000000000;
+    ex_row (ex_m s_mem s_region) RDrop 1699999261000000000;
+    ex_row (ex_m s_mem s_region) RRoute 1699999320000000000 ].
+Definition ex_cond_region : expr := EEq 0%N s_region [114; 51]%N.
+
+Theorem C11_stale_key_after_dropped_row_refuted :
+  consistent ex_batch /\
+  exists g s, nth 2 (batch_run xxh64 true b_empty ex_batch) None = Some (g, s) /\
+    wf_group (m_cfg (ex_m s_mem s_region)) g /\ wf_point (r_p (nth 2 ex_batch (ex_row (ex_m s_mem s_region) RRoute 0))) /\
+    eval_cond (m_cfg (ex_m s_mem s_region)) (Some ex_cond_region) (r_p (nth 2 ex_batch (ex_row (ex_m s_mem s_region) RRoute 0))) = true /\
+    ~ In (s_id s) (map s_id (target_group xxh64 repaired (cfg_at (ex_m s_mem s_region) (g_id g)) g (Some ex_cond_region))) /\
+    option_map (fun gs => s_id (snd gs)) (nth 2 (batch_run xxh64 false b_empty ex_batch) None) = Some 3%N.
+Proof.
+  split.
+  - intros r1 r2 H1 H2 Hn. simpl in H1, H2.
+    destruct H1 as [<-|[<-|[<-|[]]]]; destruct H2 as [<-|[<-|[<-|[]]]]; try reflexivity; vm_compute in Hn; discriminate.
+  - exists ex_group4, {| s_id := 1%N; s_min := []; s_max := [] |}.
+    split; [vm_compute; reflexivity|]. split; [unfold wf_group; simpl; apply incl_refl|].
+    split. { unfold wf_point. simpl. constructor; [intros [H|[]]; discriminate|constructor; [intros []|constructor]]. }
+    split; [vm_compute; reflexivity|]. split; [vm_compute; intros [H|[]]; discriminate|vm_compute; reflexivity].
+Qed.
+Print Assumptions C11_stale_key_after_dropped_row_refuted.
+
+(* ------------------------------------------------------------------ stale shard key across shard groups on the read side *)
+(* cpu: shard key host for groups < 2, region from group 2 on (ALTER ... SHARDKEY). The row {host=h1, region=r1} written
+   into group 2 is hashed by region into shard 12. mapMstShards keeps the key of the first selected group (host) for all
+   groups: the query host='h1' over both groups consults shards 2 and 10. With the key in force per group, group 2 is not
+   constrained by host and all its shards are read. *)
+Definition ex_group_b : group :=
+  {| g_id := 2%N; g_start := 1700002800000000000; g_end := 1700006400000000000; g_deleted := false; g_trunc := None;
+     g_shards := map (fun i => {| s_id := N.of_nat (9 + i); s_min := []; s_max := [] |}) (seq 0 8); g_alive := seq 0 8 |}.
+Definition ex_m_altered : mcfg :=
+  {| m_cfg := {| c_mst := s_cpu; c_tagkeys := [s_host; s_region]; c_sk := []; c_typ := Hash; c_dur := 3600000000000;
+                 c_groups := [ex_group; ex_group_b]; c_mstidx := None |};
+     m_vers := [(0%N, [s_host]); (2%N, [s_region])] |}.
+Definition ex_row_b : brow :=
+  {| r_m := ex_m_altered; r_kind := RRoute;
+     r_p := {| p_tags := [(s_host, [104; 49]%N); (s_region, [114; 49]%N)]; p_time := 1700002920000000000; p_leaf := fun _ => false |} |}.
+Definition ex_cond_h1 : expr := EEq 0%N s_host [104; 49]%N.
+
+Theorem C11_stale_key_across_groups_refuted :
+  exists g s, snd (batch_step xxh64 false b_empty ex_row_b) = Some (g, s) /\
+    eval_cond (m_cfg ex_m_altered) (Some ex_cond_h1) (r_p ex_row_b) = true /\
+    In g (query_groups (m_cfg ex_m_altered) 0 max_nano) /\
+    ~ In (g_id g, s_id s) (target_m xxh64 repaired false ex_m_altered 0 max_nano (Some ex_cond_h1)) /\
+    In (g_id g, s_id s) (target_m xxh64 repaired true ex_m_altered 0 max_nano (Some ex_cond_h1)).
+Proof.
+  exists ex_group_b, {| s_id := 12%N; s_min := []; s_max := [] |}.
+  split; [vm_compute; reflexivity|]. split; [vm_compute; reflexivity|].
+  split; [vm_compute; right; left; reflexivity|].
+  split.
+  - vm_compute. intros [H|[H|[]]]; discriminate.
+  - vm_compute. do 4 right. left. reflexivity.
+Qed.
+Print Assumptions C11_stale_key_across_groups_refuted.
